@@ -301,8 +301,13 @@ class QlassF(QCircuitWrapper):
         assert isinstance(fun_ast.body[0], ast.FunctionDef)
 
         if isinstance(f, str):
-            exec(f, globals())
-        original_f = eval(fun_ast.body[0].name) if isinstance(f, str) else f
+            # Run the source in a copy of this module's namespace: names defined by
+            # the user must neither shadow nor be shadowed by the library's own
+            f_ns = dict(globals())
+            exec(f, f_ns)
+            original_f = f_ns[fun_ast.body[0].name]
+        else:
+            original_f = f
 
         def _do_translate(fun_ast, original_f):
             # print(ast.dump(fun_ast, indent=4))
